@@ -366,6 +366,8 @@ def m_try_into(eng, call, args):
     subs = call.get("substs") or []
     src = subs[0][0] if subs else ""
     dst = subs[1][0] if len(subs) > 1 else ""
+    if any(x.endswith("TryFrom::try_from") for x in call.get("norm_names", [])):
+        src, dst = dst, src          # <Dst as TryFrom<Src>>::try_from: Self is the destination
     a = args[0]
     m = re.match(r"^\[(\w+); (\d+)\]$", dst)
     if m and ("[" in src or "Vec<" in src):
@@ -603,6 +605,7 @@ def m_unwrap(eng, call, args):
     v = args[0]
     want = 1 if "Option" in n else 0
     call["pre"] = ("variant", v, want)
+    call["post_facts"] = [(mk("discr", v), "eq", want)]       # having returned, the value was the success variant
     if v.op == "enum":
         for a in v.args[1]:
             if a[0] == want:
@@ -647,13 +650,19 @@ def _with_alt_context(r, alt):
 @model("std::option::Option::<T>::map", "std::result::Result::<T, E>::map")
 def m_opt_map(eng, call, args):
     v, adt, good, _ = _as(call, args[0])
-
-    def f(i, vn, fs):
+    alts = []
+    for (i, vn, fs, facts, origins) in v.args[1]:
         if i != good:
-            return (adt, i, vn, fs)
-        r = eng.invoke_value(call, args[1], list(fs), tag="#omap")
-        return (adt, i, vn, [r if r is not None else mk("ext", "map", *fs)])
-    return map_alts(v, f)
+            alts.append((i, vn, fs, facts, origins))
+            continue
+        # the closure runs only when this alternative was selected: its facts hold inside
+        amb = set(facts)
+        for (fk, b) in origins:
+            amb |= set(eng.facts_at(fk, b)) if len(origins) == 1 else set()
+        r = eng.invoke_value(call, args[1], list(fs), ambient=frozenset(amb), tag="#omap")
+        alts.append((i, vn, (r if r is not None else mk("ext", "map", *fs),), facts, origins))
+    alts.sort(key=lambda a: a[0])
+    return mk("enum", adt, tuple(alts))
 
 
 @model("std::option::Option::<T>::and_then", "std::result::Result::<T, E>::and_then")
@@ -673,6 +682,35 @@ def m_opt_and_then(eng, call, args):
     if not inc:
         return None
     return eng.join_values(("andthen", call["site"]), inc)
+
+
+@model("std::option::Option::<T>::filter")
+def m_opt_filter(eng, call, args):
+    """Some(x).filter(p): Some(x) iff p(&x), None otherwise"""
+    v = as_enum(args[0], "std::option::Option", OPT)
+    alts = []
+    none_o = frozenset()
+    have_none = False
+    for (i, vn, fs, facts, origins) in v.args[1]:
+        if i == 0:
+            have_none = True
+            none_o |= origins
+            continue
+        r = eng.invoke_value(call, args[1], [mk("refv", fs[0])], ambient=frozenset(facts), tag="#ofilter")
+        if r is None:
+            continue
+        alts.append((1, "Some", fs, frozenset(facts) | frozenset([(r, "eq", 1)]), origins))
+        have_none = True
+    if have_none:
+        alts.append((0, "None", (), frozenset(), none_o))
+    alts.sort(key=lambda a: a[0])
+    return mk("enum", "std::option::Option", tuple(alts))
+
+
+@model("std::collections::HashMap::<K, V, S, A>::into_values", "std::collections::BTreeMap::<K, V, A>::into_values")
+def m_into_values(eng, call, args):
+    m = args[0] if args[0].op not in ("ref", "refv", "refo") else val(eng, call, args[0])
+    return mk("iter", mk("map_values", m), False, call["site"])
 
 
 @model("std::option::Option::<T>::zip")
@@ -874,6 +912,29 @@ def m_exact_len(eng, call, args):
     return mk("len_iter", it)
 
 
+@model("std::array::from_fn")
+def m_array_from_fn(eng, call, args):
+    """[f(0), f(1), .., f(N-1)]: one closure invocation per position"""
+    subs = call.get("substs") or []
+    n = None
+    for sb in subs:
+        if re.fullmatch(r"\d+", sb[0].strip()):
+            n = int(sb[0])
+    dst = " ".join(call.get("norm_names", []))
+    if n is None:
+        # the array length is a const generic: take it from the destination type of the call
+        ty = call["frame"].fn.locals[call["term"]["dest"][0]] if "dest" in call["term"] else ""
+        m = re.search(r"; (\d+)\]$", ty)
+        n = int(m.group(1)) if m else None
+    if n is None:
+        return mk("ext", "std::array::from_fn", *args)
+    pos = mk("range_elem", Int(0, "usize"), Int(n, "usize"), call["site"])
+    r = call_closure(eng, call, args[0], [pos], ambient=frozenset(range_facts(pos)), tag="#map")
+    if r is None:
+        return None
+    return mk("from_fn", Int(n, "usize"), r, pos)
+
+
 @model("std::iter::once")
 def m_once(eng, call, args):
     return mk("iter", mk("agg", "array", args[0]), False, call["site"])      # a one-element sequence
@@ -1030,6 +1091,33 @@ def m_pred_consumer(eng, call, args):
     it = val(eng, call, itp) if itp.op in ("ref", "refv", "refo") else itp
     e = elem_of(eng, call, it)
     arg = mk("refv", e) if meth == "find" else e
+    if meth == "for_each":
+        # the closure runs zero or more times: what it writes through captured references is a loop-carried value.
+        # pass 1 finds the locations it writes; pass 2 runs it on the joins {before the loop, after one more iteration}
+        st = call["state"]
+        before = dict(st)
+        call_closure(eng, call, clo, [arg], ambient=iter_facts(it), tag="#" + meth)
+        written = [k for k, v in st.items() if before.get(k) is not v and k in before]
+        if written:
+            keys = {}
+            for k in written:
+                key = ("foreach", call["site"], k)
+                keys[k] = key
+                if key not in PHI:
+                    PHI[key] = {"pre": before[k], "post": before[k]}
+                    eng.phi_changed = True
+                st[k] = mk("phi", key)
+            for k in list(st.keys()):
+                if k not in before:
+                    del st[k]
+            call_closure(eng, call, clo, [arg], ambient=iter_facts(it), tag="#" + meth)
+            for k in written:
+                inc = {"pre": before[k], "post": st[k]}
+                if PHI.get(keys[k]) != inc:
+                    PHI[keys[k]] = inc
+                    eng.phi_changed = True
+                st[k] = mk("phi", keys[k])
+        return mk("unit")
     r = call_closure(eng, call, clo, [arg], ambient=iter_facts(it), tag="#" + meth)
     if r is None:
         r = mk("never")
@@ -1078,7 +1166,8 @@ def m_collect(eng, call, args):
         if inner:
             alts.append((good_idx, "Some" if is_opt else "Ok", (col,), inner[0][3], inner[0][4]))
         if bad:
-            alts.append((bad[0][0], bad[0][1], bad[0][2], frozenset(), frozenset()))
+            # the failing element's alternative keeps the facts / creation sites under which it arises
+            alts.append((bad[0][0], bad[0][1], bad[0][2], bad[0][3], bad[0][4]))
         alts.sort(key=lambda a: a[0])
         return mk("enum", adt, tuple(alts))
     return mk("collected", it)
